@@ -1203,7 +1203,11 @@ class Interp:
                 cc = c or {"trait": "std::ops::" + OP_TRAIT[name], "name": name}
                 return self.dyn_dispatch(name, cc, [a, b], [a, b], e)
             if isinstance(a, Sc) and isinstance(b, Rec):
-                self.unsupported("scalar %s dual" % op, e)
+                # a scalar standing where a dual number is expected can only be a lifted constant (one(), zero(), from(c))
+                # of a generic Self: lift it to a constant of the operand's type
+                lifted = self.lift_const(a, b, e)
+                cc = c or {"trait": "std::ops::" + OP_TRAIT[name], "name": name}
+                return self.dyn_dispatch(name, cc, [lifted, b], [lifted, b], e)
         if op in ("==", "!=", "<", "<=", ">", ">="):
             if isinstance(a, Sc) and isinstance(b, Sc):
                 return self.compare(op, a, b)
@@ -1213,6 +1217,22 @@ class Interp:
             if isinstance(a, BoolV) and isinstance(b, BoolV) and op in ("==", "!="):
                 return BoolV((a.b == b.b) == (op == "=="))
         self.unsupported("binary %s on %r, %r" % (op, type(a).__name__, type(b).__name__), e)
+
+    def lift_const(self, a, like, e):
+        f = {}
+        for k, v in like.f.items():
+            u = unref(v)
+            if k == "re":
+                f[k] = a
+            elif isinstance(u, Sc):
+                f[k] = self.sc(0)
+            elif isinstance(u, Rec) and u.adt == "Derivative":
+                f[k] = Rec("Derivative", {"0": Opt(False), "1": PHANTOM})
+            elif isinstance(u, Phantom):
+                f[k] = PHANTOM
+            else:
+                self.unsupported("lifting a constant to %s" % like.adt, e)
+        return Rec(like.adt, f)
 
     def rec_compare(self, name, op, a, b, c, e):
         """comparison of crate types: through the local PartialEq / PartialOrd impl"""
